@@ -36,7 +36,7 @@ Proof. exact idempotent. Qed.
 Theorem C04_rejects_no_geometry : forall r, r_geom r = [] -> r_minimal r = false -> from_arrays r = Err Validation.
 Proof. exact rejects_no_geometry. Qed.
 
-Theorem C04_rejects_geom_not_3n : forall r, (List.length (r_geom r) mod 3 <> 0)%nat -> forall m, from_arrays r <> Ok m.
+Theorem C04_rejects_geom_not_3n : forall r, (List.length (r_geom r) mod 3 <> 0)%nat -> from_arrays r = Err Validation.
 Proof. exact rejects_geom_not_3n. Qed.
 
 Theorem C04_rejects_too_close :
@@ -85,24 +85,23 @@ Theorem C04_rejects_conflicting_nuclear_data :
     forall m, from_arrays r <> Ok m.
 Proof. exact rejects_conflicting_nuclear_data. Qed.
 
-(** The refusal is ValidationError or NotAnElementError — except numpy's bare ValueError, raised exactly when the
-    geometry's length is not a multiple of three. *)
+(** Every refusal is ValidationError or NotAnElementError (the full statement since the repair 7b49268 of the fixed
+    finding C04-geom-not-3n-valueerror: numpy's ValueError for a geometry of length not 3n no longer escapes). *)
 Theorem C04_refusal_classes :
-  forall r, match from_arrays r with
-            | Ok _ => True
-            | Err k => k = Validation \/ k = NotAnElement \/ (k = PyValueError /\ (List.length (r_geom r) mod 3 <> 0)%nat)
-            end.
-Proof. exact from_arrays_errors. Qed.
+  forall r, (exists m, from_arrays r = Ok m) \/ from_arrays r = Err Validation \/ from_arrays r = Err NotAnElement.
+Proof.
+  intro r. pose proof (from_arrays_errors r) as C. destruct (from_arrays r) as [m|k]; [left; eauto|].
+  right. destruct C as [-> | ->]; auto.
+Qed.
 
-(** ... and that exception does occur: "refused with a validation error" is false of this input
-    (replayed on the implementation as known finding C04-geom-not-3n-valueerror). *)
+(** regression witness: the old failing input geom=[0,0,0,1], elez=[1] *)
 Definition ex_bad_geom : raw :=
   {| r_geom := [0; 0; 0; 1]%Q; r_elea := None; r_elez := Some [Some 1]; r_elem := None; r_mass := None; r_real := None;
      r_elbl := None; r_units := "Angstrom"; r_iutau := None; r_fix_com := None; r_fix_orientation := None;
      r_fix_symmetry := None; r_seps := None; r_fchg := None; r_fmult := None; r_chg := None; r_mult := None; r_conn := None;
      r_speclabel := true; r_tooclose := 1 # 10; r_zgf := false; r_nonphysical := false; r_mtol := 1 # 1000; r_minimal := false |}.
-Theorem C04_refusal_is_validation_error_refuted : exists r, from_arrays r = Err PyValueError.
-Proof. exists ex_bad_geom. vm_compute. reflexivity. Qed.
+Example C04_ex_geom_not_3n : from_arrays ex_bad_geom = Err Validation.
+Proof. vm_compute. reflexivity. Qed.
 
 (** Non-vacuity: HOH...He with a negative separator, partial descriptors, a label carrying isotope and tag. *)
 Definition ex_raw : raw :=
@@ -145,4 +144,3 @@ Print Assumptions C04_rejects_fragment_lengths.
 Print Assumptions C04_rejects_fragment_data_without_separators.
 Print Assumptions C04_rejects_conflicting_nuclear_data.
 Print Assumptions C04_refusal_classes.
-Print Assumptions C04_refusal_is_validation_error_refuted.
